@@ -27,13 +27,39 @@ def _judge(run):
     return labels, bool(ch.mid and ch.others_pending)
 
 
-P = ScenarioProperty(PROP, {}, lambda sc: [C05Checker(sc)], _judge, quick=3200, thorough=60000, crash_is_violation=True)
+from ..scenario import Objective  # noqa: E402
+
+# (NaN-valued objectives are included: nothing in this property's oracle interprets objective values)
+P = ScenarioProperty(PROP, {"families": Objective.FAMILIES + ["nanhole"]}, lambda sc: [C05Checker(sc)], _judge, quick=3200, thorough=60000, crash_is_violation=True)
+
+
+# second profile: the sticky precision condition under objectives with undefined (NaN) or infinite regions, several
+# demes per metaepoch - a condition that was observed true must stay true through the wind-down
+P_PREC = ScenarioProperty(
+    PROP,
+    {
+        "levels": (2, 3),
+        "families": ["nanhole", "nanhole", "infwall", "sphere"],
+        "gsc_kinds": ["SingularProblemPrecisionReached"],
+        "sprouty": True,
+        "level_limit_min": 2,
+        "root_lsc_kinds": ["DontStop"],
+        "lsc_kinds": ["DontStop", "MetaepochLimit"],
+        "cap": (6, 10),
+    },
+    lambda sc: [C05Checker(sc)],
+    _judge,
+    quick=480,
+    thorough=8000,
+    crash_is_violation=True,
+)
 
 
 def run_shard(tier, seed, shard, nshards, tally, scale=1.0):
     from . import minimize_tier
 
     fs = P.run_shard(tier, seed, shard, nshards, tally, scale)
+    fs += P_PREC.run_shard(tier, seed, shard, nshards, tally, scale, salt=37)
     fs += minimize_tier.run_shard(PROP, tier, seed, shard, nshards, tally, scale)
     return fs
 
